@@ -41,13 +41,17 @@ Verdicts:
     (`unexpected_reason`) and broken correspondence (they are deterministic).
   * the messages of the real program are only counted.
 
-Both tiers are sized by the cost of starting the real program (see TIERS):
-quick    all 32 bits of every field of 3 small files (the smallest without a
-         block, with one block, with several blocks), a seeded sample of 4
-         bits of every field of the others, one compensated flip per file;
-thorough all 32 bits of every field of the smallest files (400 fields), 8
-         seeded bits of every other field, 2..4 compensated flips per block
-         field;
+Both tiers are bounded by construction (TIERS, plan()), because starting the
+real program is the cost and it does not parallelise on this machine:
+quick    at most 60 files (the smallest without a block / with one block /
+         with several blocks, four named multi-block / multi-stream files, a
+         seeded sample of the others) and 900 flipped files: a seeded sample
+         of 4 bits of every field and one compensated flip per file; what is
+         left of the 900 gives all 32 bits of every field to the smallest
+         files (<= 10);
+thorough every file, at most 21000 flipped files: 8 seeded bits of every
+         field, 2 compensated flips per block field, the rest of the budget
+         gives all 32 bits to the smallest files (about 400 fields);
 W25_ALL=1 in the environment: every bit of every field of every file.
 
 Use:  run(ck) from a property check, or standalone
@@ -71,13 +75,15 @@ import w22_expand as W  # noqa: E402
 NPROC = W.NPROC
 # Starting a process costs 6..10 ms on this machine and does NOT get faster in
 # parallel (100..180 lbzip2 runs per second whatever the number of workers;
-# more workers only burn system time), so both tiers are sized by the number
-# of runs of the real program: 2 per flipped file.
-#          files with all 32 bits  fields  bits per     compensated flips per
-#          (full_set), at most     in them other field  block field: full / other
-TIERS = {'quick': (3, 10, 4, 4, 0),       # 0 -> one per file
-         'thorough': (10 ** 6, 400, 8, 4, 2),
-         'all': (10 ** 6, 10 ** 9, 32, 32, 32)}   # W25_ALL=1: every bit; ~1 h
+# more workers only burn system time), so both tiers are bounded by the number
+# of runs of the real program: 2 per flipped file.  See plan().
+#         files  flipped  bits per  compensated flips per     files with
+#                files    field     block field: base / full  all 32 bits
+TIERS = {'quick': (60, 900, 4, 0, 4, 10),         # 0 -> one per file
+         'thorough': (10 ** 6, 21000, 8, 2, 4, 10 ** 6),
+         'all': (10 ** 6, 10 ** 9, 32, 32, 32, 0)}   # W25_ALL=1: ~1 h
+KEEP = ('hello-l9', 'two-blocks-l3', 'cat-hello-empty-hello',
+        'cat-empty-empty-empty')
 REAL_WORKERS = 3    # see above
 MAXMSG = 8
 MAXVIOL = 8
@@ -157,26 +163,58 @@ def valid_files(ck):
     return uniq
 
 
-def full_set(files, maxfiles, maxfields):
-    """Indices of the files whose fields get all 32 bits: the smallest file
-    without a block, with exactly one block, with two or more blocks, then
-    the next smallest ones, up to `maxfiles` files / `maxfields` fields."""
-    pickd = []
+def size_order(files):
+    """Indices of `files` (sorted by size): the smallest file without a block,
+    with exactly one block, with two or more blocks, then the others."""
+    first = []
     for want in (lambda nb: nb == 0, lambda nb: nb == 1, lambda nb: nb >= 2):
         for fi, (_, _, inf) in enumerate(files):
-            if want(len(inf[1])) and fi not in pickd:
-                pickd.append(fi)
+            if want(len(inf[1])) and fi not in first:
+                first.append(fi)
                 break
-    pickd += [fi for fi in range(len(files)) if fi not in pickd]
-    out = set()
-    nfields = 0
-    for fi in pickd:
-        inf = files[fi][2]
-        nfields += len(inf[1]) + len(inf[2])
-        if len(out) >= maxfiles or (out and nfields > maxfields):
+    return first + [fi for fi in range(len(files)) if fi not in first]
+
+
+def plan(rng, files, tier):
+    """{file index: list of flips}, bounded by construction (TIERS): at most
+    `maxfiles` files (the three smallest shapes, the files named KEEP, a
+    seeded sample of the others) and `maxflips` flipped files.  Every chosen
+    file first gets `nbits` seeded bits of every field and its compensated
+    flips (files are dropped, largest first, if that alone exceeds the cap);
+    what is left of the cap upgrades the files to all 32 bits of every field,
+    smallest first, at most `maxfull` files."""
+    maxfiles, maxflips, nbits, compother, compfull, maxfull = TIERS[tier]
+    order = size_order(files)
+    if len(order) > maxfiles:
+        must = order[:3] + [fi for fi in order[3:] if files[fi][0] in KEEP]
+        rest = [fi for fi in order if fi not in must]
+        chosen = set(must[:maxfiles])
+        chosen |= set(rng.sample(rest, min(len(rest),
+                                           max(0, maxfiles - len(chosen)))))
+        order = [fi for fi in order if fi in chosen]
+    plans = {}
+    total = 0
+    for fi in order:
+        _, blocks, streams, per = files[fi][2]
+        pl = plan_flips(rng, nbits, compother, blocks, streams, per)
+        if total + len(pl) > maxflips:
+            continue
+        plans[fi] = pl
+        total += len(pl)
+    nfull = 0
+    for fi in order:
+        if nfull >= maxfull or nbits >= 32:
             break
-        out.add(fi)
-    return out
+        if fi not in plans:
+            continue
+        _, blocks, streams, per = files[fi][2]
+        pl = plan_flips(rng, 32, compfull, blocks, streams, per)
+        if total - len(plans[fi]) + len(pl) > maxflips:
+            break
+        total += len(pl) - len(plans[fi])
+        plans[fi] = pl
+        nfull += 1
+    return plans, nfull
 
 
 def plan_flips(rng, nbits, ncomp, blocks, streams, per):
@@ -257,21 +295,17 @@ def run(ck):
     seen = set()
     tier = 'all' if os.environ.get('W25_ALL') else \
         'quick' if ck.quick else 'thorough'
-    maxfiles, maxfields, nbits, compfull, compother = TIERS[tier]
-    fullset = full_set(files, maxfiles, maxfields)
+    plans, nfull = plan(rng, files, tier)
     summ['tier'] = tier
-    summ['files_all_32_bits'] = len(fullset)
-    summ['fields_all_32_bits'] = sum(len(files[fi][2][1]) +
-                                     len(files[fi][2][2]) for fi in fullset)
-    summ['bits_per_other_field'] = nbits
+    summ['files_available'] = len(files)
+    summ['files_all_32_bits'] = nfull
+    files = [files[fi] for fi in sorted(plans)]
+    plans = [plans[fi] for fi in sorted(plans)]
+    summ['files'] = len(files)
     for fi, (nm, d, (plain, blocks, streams, per)) in enumerate(files):
         summ['fields_block'] += len(blocks)
         summ['fields_stream'] += len(streams)
-        isfull = fi in fullset
-        for kind, idx, b, bits in plan_flips(rng, 32 if isfull else nbits,
-                                             compfull if isfull else
-                                             compother, blocks, streams,
-                                             per):
+        for kind, idx, b, bits in plans[fi]:
             fd = flip(d, bits)
             k = hashlib.sha1(fd).digest()
             if k in seen:
